@@ -104,3 +104,15 @@ func (e okCodeErr) GRPCStatus() *grpcstatus.Status {
 }
 
 var _ = http.StatusOK
+
+// httpMemGeneric wires any httpgrpc.Server behind the in-memory transport.
+type httpMemGeneric struct {
+	tr *memTransport
+	ch *httpgrpc.Channel
+}
+
+func newHTTPMemGeneric(hs *httpgrpc.Server) *httpMemGeneric {
+	tr := newMemTransport(hs)
+	u, _ := url.Parse("http://mem.test/")
+	return &httpMemGeneric{tr: tr, ch: &httpgrpc.Channel{Transport: tr, BaseURL: u}}
+}
